@@ -80,6 +80,10 @@ class Exec(ExprMixin, CallMixin):
                     self.ctx.oblige(f"cut:{self.contract.qualname}:{aname}", t, kind="post", line=s.lineno)
                 self.ctx.cover(f"cover:{self.contract.qualname}:cut", line=s.lineno)
                 raise PathEnd()
+        if self.reg.dropped_stmts and isinstance(s, (ast.Expr, ast.Assign, ast.AugAssign, ast.If)):
+            src = ast.unparse(s)
+            if any(re.fullmatch(pat, src, re.S) for pat in self.reg.dropped_stmts):
+                return
         m = getattr(self, "st_" + type(s).__name__, None)
         if m is None:
             raise Unsupported(f"statement {type(s).__name__}", s)
@@ -448,6 +452,9 @@ class Exec(ExprMixin, CallMixin):
                 self.ctx.events.append(("acquire", src, list(self.ctx.held_locks)))
             elif kind == "timeout":
                 self.timeout_depth += 1
+                if isinstance(item.optional_vars, ast.Name):
+                    self.ctx.locals[item.optional_vars.id] = self.ctx.fresh(sorts.TOpaque("Timeout"), item.optional_vars.id)
+                continue
             elif kind == "opaque":
                 if isinstance(item.optional_vars, ast.Name):
                     self.ctx.locals[item.optional_vars.id] = self.ctx.fresh(sorts.TOpaque("ctx_" + item.optional_vars.id), item.optional_vars.id)
